@@ -29,15 +29,22 @@ struct Echo {
     f: i64,
     log: Log,
     run: i64,
+    /// this model refuses to predict (an estimator failing on one fold only)
+    fail_predict: bool,
 }
 
 impl Predictor<DenseMatrix<f64>, Vec<f64>> for Echo {
     fn predict(&self, x: &DenseMatrix<f64>) -> Result<Vec<f64>, Failed> {
         let (n, _) = x.shape();
         let rows: Vec<i64> = (0..n).map(|i| x.get(i, 0) as i64).collect();
+        if self.fail_predict {
+            self.log.borrow_mut().push(json!({"run": self.run, "ev": "Predict", "f": self.f,
+                "rows": rows, "out": [], "failed": true}));
+            return Err(Failed::predict("instrumented estimator: this fold's model refuses to predict"));
+        }
         let out: Vec<f64> = rows.iter().map(|r| (self.f * 1000 + r) as f64).collect();
         self.log.borrow_mut().push(json!({"run": self.run, "ev": "Predict", "f": self.f,
-            "rows": rows, "out": iv(&out)}));
+            "rows": rows, "out": iv(&out), "failed": false}));
         Ok(out)
     }
 }
@@ -220,7 +227,7 @@ fn tts_event(run: i64, n: usize, ny: usize, ts: f32, shuffle: bool) -> Value {
 }
 
 fn cv_events(run: i64, n: usize, k: usize, shuffle: bool, predict_kind: bool, out: &mut Out) {
-    cv_events_with(run, n, k, shuffle, predict_kind, None, out)
+    cv_events_with(run, n, k, shuffle, predict_kind, None, None, out)
 }
 
 fn cv_events_with(
@@ -230,6 +237,8 @@ fn cv_events_with(
     shuffle: bool,
     predict_kind: bool,
     custom: Option<Vec<(Vec<usize>, Vec<usize>)>>,
+    // Some((j, in_predict)): the j-th model (1-based) fails, in fit or in predict
+    fail: Option<(i64, bool)>,
     out: &mut Out,
 ) {
     let mut v = Vec::with_capacity(n);
@@ -254,12 +263,17 @@ fn cv_events_with(
             *fitno.borrow_mut() += 1;
             let f = *fitno.borrow();
             let rows: Vec<i64> = (0..x.shape().0).map(|i| x.get(i, 0) as i64).collect();
+            let fail_fit = fail == Some((f, false));
             log.borrow_mut()
-                .push(json!({"run": run, "ev": "Fit", "f": f, "rows": rows, "ys": iv(y)}));
+                .push(json!({"run": run, "ev": "Fit", "f": f, "rows": rows, "ys": iv(y), "failed": fail_fit}));
+            if fail_fit {
+                return Err(Failed::fit("instrumented estimator: this fold cannot be fitted"));
+            }
             Ok(Echo {
                 f,
                 log: log.clone(),
                 run,
+                fail_predict: fail == Some((f, true)),
             })
         }
     };
@@ -421,7 +435,35 @@ fn main() {
                     }
                     for &pk in [false, true].iter() {
                         run += 1;
-                        cv_events_with(run, n, pairs.len(), false, pk, Some(pairs.clone()), &mut out);
+                        cv_events_with(run, n, pairs.len(), false, pk, Some(pairs.clone()), None, &mut out);
+                    }
+                }
+            }
+            // an estimator that fails on one fold only (in fit or in predict), first / middle / last
+            // fold, built-in and user-supplied splitters, both drivers
+            for &(n, k) in [(6usize, 2usize), (9, 3), (10, 4), (12, 5), (23, 7)].iter() {
+                for &j in [1usize, (k + 1) / 2, k].iter() {
+                    for &in_predict in [false, true].iter() {
+                        for &pk in [false, true].iter() {
+                            for &sh in [false, true].iter() {
+                                run += 1;
+                                cv_events_with(run, n, k, sh, pk, None, Some((j as i64, in_predict)), &mut out);
+                            }
+                        }
+                    }
+                }
+            }
+            for n in [8usize, 13, 20].iter().copied() {
+                for style in 0..3usize {
+                    let pairs = declared_pairs(n, style);
+                    if pairs.len() < 2 {
+                        continue;
+                    }
+                    for &j in [1usize, pairs.len()].iter() {
+                        for &pk in [false, true].iter() {
+                            run += 1;
+                            cv_events_with(run, n, pairs.len(), false, pk, Some(pairs.clone()), Some((j as i64, pk)), &mut out);
+                        }
                     }
                 }
             }
